@@ -119,6 +119,12 @@ def run(check):
     jobs.append({"cfg": {}, "script": [["write", "c", 0, 3000, False], ["deliver", 2], ["deliver", 0], ["tick", 30000], ["deliver", 0],
                                        ["timer", "s"], ["drop", 0], ["write", "c", 0, 10, True], ["deliver", 0], ["late", "s", 30000]],
                  "seed": 1, "hs_adv": False, "profile": "corpus-gap-lost-ack"})
+    # corpus: a long train of ack-eliciting packets arriving in order less than the internal acknowledgement delay apart
+    # (windows grown first), every timer fired on time: the acknowledgement may not wait for the end of the train
+    for ep, sid in (("c", 0), ("s", 1)):
+        for gap in (500, 900):
+            jobs.append({"cfg": {}, "script": [["write", ep, sid, 900000, False], ["pump", 700]] + [["run", gap], ["deliver", 0]] * 110,
+                         "seed": 2, "hs_adv": False, "profile": "corpus-train"})
     jobs += zrtt_jobs(rnd, 1 if check.quick else 20)
     results = runner.run_many(job_fn, jobs)
     check.cov["zero_rtt_packets_on_the_wire"] = sum(r["zrtt"] for r in results)
